@@ -889,7 +889,7 @@ func main() {
 	detectKeyModes()
 	run.Res.Extra["key_mode"] = map[string]string{"normalised_document": keyMode, "key_shape": keyShape}
 	run.Tag("key:" + keyMode + "/" + keyShape)
-	run.Res.Rule = "histories of Get / ExecutePlan / Reset / schema replacement (two slots, same shape, new pointer per replacement) over a pool of 6-30 requests drawn as near-miss pairs from thirteen families (second spread of a fragment already spread elsewhere present / absent / with a directive, definitions the selected operation does not reach, equal literals under every wrapper shape of one input type, list / input-object literals for resolvers that mutate their arguments, one literal, one alias, argument order/name, operation names, text imitating the key encodings incl. \\x00 and multi-byte, variables + dynamic directives, object/list/interface/union/fragment shapes, rejected requests, formerly normaliser-unsafe shapes D-06b…g), caps {1,2,3,5,default}, MaxQueryBytes {default,40,64} with over-size and at-limit twins, nil cache 1/25; modes raw 60% / Normalize=true 40% (norm-safe, norm-any = with adversarial operation names); non-trivial = the history has a hit and at least one of eviction, schema-guard miss, reset, bypass, re-execution of a stale plan; distinct by the whole history"
+	run.Res.Rule = "histories of Get / ExecutePlan / Reset / schema replacement (two slots, same shape, new pointer per replacement) over a pool of 6-30 requests drawn as near-miss pairs from fifteen families (duplicate input-object field names inside extractable literals at any depth, one response key with literal arguments in the operation and in a fragment it spreads, second spread of a fragment already spread elsewhere present / absent / with a directive, definitions the selected operation does not reach, equal literals under every wrapper shape of one input type, list / input-object literals for resolvers that mutate their arguments, one literal, one alias, argument order/name, operation names, text imitating the key encodings incl. \\x00 and multi-byte, variables + dynamic directives, object/list/interface/union/fragment shapes, rejected requests, formerly normaliser-unsafe shapes D-06b…g), caps {1,2,3,5,default}, MaxQueryBytes {default,40,64} with over-size and at-limit twins, nil cache 1/25; modes raw 60% / Normalize=true 40% (norm-safe, norm-any = with adversarial operation names); non-trivial = the history has a hit and at least one of eviction, schema-guard miss, reset, bypass, re-execution of a stale plan; distinct by the whole history"
 	run.Res.Rule += " || interleaved Gets: a complete Get (and a third one inside it) nested between the lookup and the store of another Get through a custom scalar's ParseLiteral hook; all of Normalize on/off x caps {1,2,default} x nested Get on the same / the other schema pointer x same / other key x pre-populated entry (none, other schema same key, same schema other key) x third Get (none, A, B) x a sibling Get for the other request inside the outer one x which schema asks first afterwards; compared with the model run on the same lookup/store primitives (hit/miss, which Get's plan a hit returns, key list in MRU order + length + counters whenever no Get is in flight) and with graphql.Do on the request's own schema"
 	run.Res.Assumptions = []string{
 		"Normalize=true is compared with graphql.Do on every history and every pool (the shapes that exhibited D-06b…g are part of the pool since their repair); mode norm-any differs from norm-safe only by also drawing adversarial operation names",
